@@ -72,6 +72,8 @@ def needed_requests(s, executed=None):
             reqs.append({"op": "tok", "text": op["text"], "mode": eff, "fields": sorted(t["fields"])})
         elif op["op"] == "lookup":
             reqs.append({"op": "lookup", "text": op["text"]})
+        elif op["op"] in ("matcher", "matcher_fn") and not any(r["op"] == "pos" for r in reqs):
+            reqs.append({"op": "pos", "text": []})
     return reqs
 
 
@@ -110,6 +112,7 @@ def lib_results(world, sessions, py_events=None):
             e["sess"] = s["sess"]
             e.setdefault("mode", -1)
             e.setdefault("fields", [])
+            e.setdefault("list", [])
             evs.append(e)
         out[s["sess"]] = evs
     return out
@@ -135,7 +138,7 @@ def assemble(sessions, libs, py_events, crashed):
                 a["all_fields"] = a["fields"] == "all"
                 a["fields"] = [] if a["all_fields"] else a["fields"]
             out.append({"ev": "call", "sess": e["sess"], "k": e["k"], "op": e["op"], "args": a, "res": e["res"], "same_object": e.get("same_object", False), "msg": e["msg"]})
-            out.append({"ev": "obs", "sess": e["sess"], "k": e["k"], "modes": e["modes"], "lists": e["lists"], "handles": e["handles"]})
+            out.append({"ev": "obs", "sess": e["sess"], "k": e["k"], "modes": e["modes"], "lists": e["lists"], "handles": e["handles"], "matchers": e.get("matchers", [])})
         if not any(e["ev"] == "sess_end" for e in evs):
             out.append({"ev": "crash", "sess": s["sess"], "msg": crashed})       # no action of the specification matches an interpreter crash
     return out
@@ -384,6 +387,9 @@ def run(tier, replay=None):
         "a stale morpheme handle": any(h[1]["res"] == "err" for e in events if e["ev"] == "obs" for h in e["handles"]),
         "a projection": any(e["op"] == "create" and e["args"]["projection"] != "surface" for e in calls),
         "a field subset": any(e["op"] == "create" and not e["args"]["all_fields"] for e in calls),
+        "a POS matcher applied to morphemes": any(any(h[1] for h in m[1]["hits"]) for e in events if e["ev"] == "obs" for m in e.get("matchers", [])),
+        "a POS matcher built by | & - ~": any(e["op"] == "mop" and e["res"] == "ok" for e in calls),
+        "a POS pattern that matches nothing": any(e["op"] == "matcher" and e["res"] == "err" for e in calls),
     }
     clis = [e for e in cevents if e["ev"] == "cli"]
     txt = lambda e: "".join(map(chr, e["input"]))
@@ -426,6 +432,15 @@ def run(tier, replay=None):
             m2, t2, _ = C.tlc_trace("Trace_Bindings", "Trace_Bindings.cfg", pp)
             if m2 != k:
                 raise C.ToolError("corruption probe: an altered tokenizer mode was not rejected")
+        sid = next(e["sess"] for e in events if e["ev"] == "obs" and any(any(h[1] for h in m[1]["hits"]) for m in e.get("matchers", [])))
+        sess = [json.loads(json.dumps(e)) for e in events if e.get("sess") == sid]
+        k = next(i for i, e in enumerate(sess) if e["ev"] == "obs" and any(any(h[1] for h in m[1]["hits"]) for m in e.get("matchers", [])))
+        hit = next(h for m in sess[k]["matchers"] for h in m[1]["hits"] if h[1])
+        hit[1][0] = not hit[1][0]
+        C.write_ndjson(pp, sess)
+        m2, t2, _ = C.tlc_trace("Trace_Bindings", "Trace_Bindings.cfg", pp)
+        if m2 != k:
+            raise C.ToolError("corruption probe: a flipped POS matcher verdict was not rejected")
         rid = next(e["run"] for e in clis if e["stdout"])
         grp = [json.loads(json.dumps(e)) for e in cevents if e.get("run") == rid]
         grp[-1]["stdout"][0] += 1
@@ -433,6 +448,6 @@ def run(tier, replay=None):
         m2, t2, _ = C.tlc_trace("Trace_Cli", "Trace_Cli.cfg", pp)
         if m2 != len(grp) - 1:
             raise C.ToolError("corruption probe: an altered output byte was not rejected")
-        out.cov["corruption_probe"] = "altered surface / end offset / normalized form / tokenizer mode in one observation, one altered output byte of a CLI run: each rejected at that event"
+        out.cov["corruption_probe"] = "altered surface / end offset / normalized form / tokenizer mode / POS matcher verdict in one observation, one altered output byte of a CLI run: each rejected at that event"
     out.cov["exhaustive"] = False
     return out.finish()
